@@ -109,13 +109,21 @@ def run(ctx):
                 for e in reader_events(der, s):
                     if a in OWN_TAG[e["fn"]] and (e["fn"] != "read_length" or a >= 0x80):
                         events.append(e)
+    # four-byte inputs for the OID reader: declared body of 1 or 2 bytes followed by what is left
+    for b in (1, 2):
+        for c in third:
+            for d in third:
+                add([e for e in reader_events(der, bytes([6, b, c, d])) if e["fn"] == "remove_object"])
     # structured longer inputs: valid encodings with mutated length fields / truncations / trailing bytes
     bodies = [b"", b"\x00", b"\x7f", b"\x80", b"\x00\x80", b"\x00\x7f", b"\x01\x02\x03", bytes(range(127)),
               b"\x01" * 126, b"\x01" * 127, b"\x01" * 128, b"\x01" * 129, b"\x2a" * 255, b"\x2a" * 256, b"\x2a" * 257,
               b"\x00" + b"\x2a" * 300, b"\x00\x81" + b"\x2a" * 126, b"\x00\x81" + b"\x2a" * 127,
               bytes(range(128)), bytes(200), bytes([0x2A, 0x86, 0x48, 0xCE, 0x3D, 0x02, 0x01]),
               bytes([0x2B, 0x81, 0x04, 0x00, 0x21]), bytes([0x80, 0x01]), bytes([0x2A, 0x80]), bytes(255), bytes(256),
-              b"\x07\x80", b"\x01\x01", b"\x08\x00", b"\x00" + bytes(300)]
+              b"\x07\x80", b"\x01\x01", b"\x08\x00", b"\x00" + bytes(300),
+              # bodies whose last byte announces a continuation (an OID sub-identifier cut off by the END OF THE BODY while
+              # more bytes follow in the buffer)
+              b"\x81", b"\x2a\x81", b"\x2a\x86\xc8", b"\xff", b"\x2a\xff\xff", b"\x2a\x03\x84"]
     for tag in (2, 3, 4, 6, 0x30, 0xA0, 0xA1):
         for body in bodies:
             L = len(body)
